@@ -595,7 +595,7 @@ fn gen_c12(ch: &mut Choices) -> Plan {
 pub fn template(ver: Ver, server_ep: bool, ch: &mut Choices, i: u32) -> Pkt {
     let pid = 1 + ch.choose(3) as u16;
     let v5 = ver == Ver::V5;
-    let plen = ch.choose(5) as usize;
+    let plen = *ch.pick(&[0usize, 1, 2, 3, 4, 40, 300]);
     // what a peer may send to a server endpoint / to a client endpoint, plus everything else
     // that is well-formed for the version (unexpected direction included)
     match ch.choose(if v5 { 17 } else { 15 }) {
@@ -664,6 +664,20 @@ fn gen_c16(ch: &mut Choices) -> Plan {
         let p = template(ver, role.is_server(), ch, i);
         let pre = if before_handshake && i == 0 { Pre::None } else { Pre::Connected };
         plan.peer.script.push(step(p, ver, pre));
+    }
+    // motif: a publish whose payload arrives in pieces right after a publish with the same id
+    // (refused or failing while the remaining chunks are still on their way)
+    if ch.chance(1, 4) {
+        let pid = 1 + ch.choose(3) as u16;
+        let at = ch.choose(plan.peer.script.len() as u32 + 1) as usize;
+        let q1 = 1 + ch.choose(2) as u8;
+        let q2 = 1 + ch.choose(2) as u8;
+        let len = *ch.pick(&[300usize, 40, 2000]);
+        let a = Pkt::Publish(mk_publish(ver, ch, 100, q1, Some(pid), 2));
+        let b = Pkt::Publish(mk_publish(ver, ch, 101, q2, Some(pid), len));
+        plan.peer.script.insert(at, step(b, ver, Pre::Connected));
+        plan.peer.script.insert(at, step(a, ver, Pre::Connected));
+        plan.cfg.min_chunk = *ch.pick(&[0u32, 2]);
     }
     if before_handshake && role.is_server() {
         // the first packet replaces CONNECT
